@@ -127,6 +127,19 @@ def parser_agreement(strings):
         return {'v': sorted(p.variables_used), 'f': sorted(p.functions_used),
                 's': sorted(p.suffixes_used)}
 
+    MA = lib.math_array.MathArray
+    funcs = dict(calc.DEFAULT_FUNCTIONS)
+    funcs.update(lib.mathfuncs.ARRAY_ONLY_FUNCTIONS)
+
+    def ev_shared(s):
+        return canon(calc.evaluator(s, calc.DEFAULT_VARIABLES, funcs, calc.DEFAULT_SUFFIXES)[0])
+
+    def ev_fresh(s):
+        t = s.strip()
+        if t == '':
+            return canon(float('nan'))
+        return canon(fresh.parse(t).eval(calc.DEFAULT_VARIABLES, funcs, calc.DEFAULT_SUFFIXES)[0])
+
     for s in strings:
         if not isinstance(s, str) or len(s) > 300:
             continue
@@ -134,4 +147,16 @@ def parser_agreement(strings):
         b = outcome(names, fresh.parse, s)
         if a != b:
             bad.append([s, a, b])
+            continue
+        if a['k'] != 'ret' or a['v']['v'] or len(s) > 120:
+            continue
+        # a string without variables: its value under the default scope must not depend on what
+        # was evaluated before, with negative matrix powers enabled and disabled
+        for flag in (True, False):
+            with MA.enable_negative_powers(flag):
+                va = outcome(ev_shared, s)
+                vb = outcome(ev_fresh, s)
+            if va != vb:
+                bad.append([s + ('' if flag else '   [negative powers disabled]'), va, vb])
+                break
     return bad
